@@ -96,7 +96,7 @@ int main(int argc, char** argv)
     auto g = rc::gen::resize(100, rc::gen::container<std::vector<uint64_t>>((std::size_t)cl->nwords, rc::gen::arbitrary<uint64_t>()));
     rc::check("emit", [&]() {
       std::vector<uint64_t> w = *g; Dec d(w.data(), w.size()); Args a = c08_decode(ctx, d);
-      int id = (int)a[0]; const char* fl = g_sigs[id].flags; if (!strcmp(fl, "RT")) { ++notce; return; }
+      int id = entry_from_key(a[0]); const char* fl = g_sigs[id].flags; if (!strcmp(fl, "RT")) { ++notce; return; }
       const auto& sig = entry_args()[id]; for (size_t i = 0; i < sig.size(); ++i) if (!c08_arg_ok(id, i, sig[i], a[1 + i])) return;
       bool sq = !strcmp(fl, "CESQ"); bool have = false, bad = false; int64_t ref = 0;
       for (const Cut& c : ctx.cuts) { CallResult r = cut_call(c, id, a[1], a[2], a[3]); if (r.trap) { ++trapped; bad = true; break; } if (sq && !c.abacus) continue; if (!have) { have = true; ref = r.v; } else if (r.v != ref) { ++disagree; bad = true; break; } }
